@@ -22,7 +22,7 @@ EXE = "drv_c10"
 DYADIC_DT = [0.5, 0.25, 0.125, 1 / 64, 1 / 128, 1 / 256, 1.0, 2.0]
 OTHER_DT = [0.01, 0.005, 0.004, 1 / 75, 1 / 150, 1 / 300, 0.02, 0.1, 1 / 3]
 SPECIALS = [-0.0, 0.0, 5e-324, -5e-324, 1.7976931348623157e308, -1.7976931348623157e308, 2.2250738585072014e-308, 1e-310, 0.1, 1 / 3,
-            1e22, 123456789.12345679, float(np.nextafter(1.0, 2.0))]
+            1e22, 123456789.12345679, float(np.nextafter(1.0, 2.0)), float("inf"), float("-inf")]   # +-inf are samples too (clipped channels, gaps marked by some loggers)
 
 
 
